@@ -182,7 +182,10 @@ func judgeNum(ctx *Ctx, fn c14NumFn, args []cty.Value, class string, res cty.Val
 			return
 		}
 		c := args[0].AsBigFloat().Cmp(args[1].AsBigFloat())
-		want := map[string]bool{"lt": c < 0, "gt": c > 0, "le": c <= 0, "ge": c >= 0}[fn.name]
+		// le / ge are "LessThan or Equals" with cty's own number equality (C03 covers where that
+		// differs from exact equality for numbers of different precision)
+		eq := c == 0 || args[0].Equals(args[1]).True()
+		want := map[string]bool{"lt": c < 0, "gt": c > 0, "le": c < 0 || eq, "ge": c > 0 || eq}[fn.name]
 		if res.True() != want {
 			fail(fn.name+"-wrong", "comparison disagrees with exact comparison")
 		}
